@@ -15,7 +15,7 @@ only at exhaustion), C15.P-order (within an arm no CFG path from a COMPLETE- or 
 call, nor from a STABLE-class call to a COMPLETE-class call), C15.Y-clap (for every argument id the value type of an
 explicit value_parser - normalised <P as TypedValueParser>::Value - equals the type requested by remove_one/get_one for
 the same id), S.P-parse (malformed input: exit through panic before any print), C08.A-alphabet (the default library mode
-must accept every label the parser accepts), C10.F-print (T/F/u and the statement's own name), C10.P-cli (no sort call after an ADF construction: the names would be permuted against the
+must accept every label the parser accepts), C15.W-clap (no clap argument constraint - requires, conflicts_with, exclusive, group membership ... - beyond the frozen table of the two exclusive groups: every documented flag combination must stay accepted), C10.F-print (T/F/u and the statement's own name), C10.P-cli (no sort call after an ADF construction: the names would be permuted against the
 conditions), and - since the printed sets are the
 library's answers - the complete rule suites of C01-C05 including their dependency suites (rules/deps.py), evaluated for the library
 configuration the binary links (quick: default features; thorough: the three counting configurations)."""
